@@ -489,7 +489,6 @@ static int hio_close_internal(HIO_HANDLE *h)
 int hio_reopen_mem(void *ptr, long size, int free_after_use, HIO_HANDLE *h)
 {
 	MFILE *m;
-	int ret;
 	if (size <= 0) return -1;
 
 	m = mopen(ptr, size, free_after_use);
@@ -497,12 +496,12 @@ int hio_reopen_mem(void *ptr, long size, int free_after_use, HIO_HANDLE *h)
 		return -1;
 	}
 
-	ret = hio_close_internal(h);
-	if (ret < 0) {
-		m->ptr_free = NULL;
-		mclose(m);
-		return ret;
-	}
+	/* The old stream is gone whether or not closing it reported an error
+	 * (fclose releases the FILE, cbclose its CBFILE, in any case): always
+	 * switch to the new one, so that the handle never refers to a stream
+	 * that hio_close would close a second time.
+	 */
+	hio_close_internal(h);
 
 	h->type = HIO_HANDLE_TYPE_MEMORY;
 	h->handle.mem = m;
@@ -514,15 +513,12 @@ int hio_reopen_mem(void *ptr, long size, int free_after_use, HIO_HANDLE *h)
 int hio_reopen_file(FILE *f, int close_after_use, HIO_HANDLE *h)
 {
 	long size = get_size(f);
-	int ret;
 	if (size < 0) {
 		return -1;
 	}
 
-	ret = hio_close_internal(h);
-	if (ret < 0) {
-		return -1;
-	}
+	/* see hio_reopen_mem */
+	hio_close_internal(h);
 
 	h->noclose = !close_after_use;
 	h->type = HIO_HANDLE_TYPE_FILE;
